@@ -143,7 +143,7 @@ def eval_encode(item):
     rooted = bool(spec["rooted"])
     want_canon = SP.canon(tree, rooted)
     try:
-        with time_limit(20):
+        with limit(20):
             ret = tree.encode_bipartitions(**opts)
     except Timeout:
         return [("encode.hangs", "no result after 20 s")]
@@ -210,6 +210,10 @@ def _encode_opts_items(tier):
 
 
 def _w_encode(item):
+    return retry_hangs(_w_encode0, item)
+
+
+def _w_encode0(item):
     fails = eval_encode(item)
     sp = item["spec"]
     return (spec_key(sp) + " opts=" + _opts_key(item["opts"]), len(sp["leaves"]), fails)
@@ -235,7 +239,7 @@ def eval_reencode(item):
     y.add_child(x)
     want_canon = SP.canon(tree, rooted)
     try:
-        with time_limit(20):
+        with limit(20):
             ret = tree.encode_bipartitions()
     except Timeout:
         return [("encode.hangs", "no result after 20 s")]
@@ -282,12 +286,20 @@ def _reencode_items(tier):
 
 
 def _w_reencode(item):
+    return retry_hangs(_w_reencode0, item)
+
+
+def _w_reencode0(item):
     fails = eval_reencode(item)
     return (spec_key(item["spec"]) + " move %s -> node#%d" % (item["leaf"], item["target"]), len(item["spec"]["leaves"]), fails)
 
 
 # ============================================================================ iff
 def _w_iff(item):
+    return retry_hangs(_w_iff0, item)
+
+
+def _w_iff0(item):
     """one tree: (canonical form, split-mask set after a real encoding)"""
     tree = build(item)
     rooted = bool(item["rooted"])
@@ -421,7 +433,7 @@ def eval_rebuild(item, orders=None, seed=0):
         f = []
         for route in ("bipartitions", "masks"):
             try:
-                with time_limit(20):
+                with limit(20):
                     if route == "bipartitions":
                         rt = Tree.from_bipartition_encoding([enc[i] for i in o], taxon_namespace=ns, is_rooted=rooted)
                     else:
@@ -462,6 +474,10 @@ def _rebuild_items(tier):
 
 
 def _w_rebuild(item):
+    return retry_hangs(_w_rebuild0, item)
+
+
+def _w_rebuild0(item):
     results, exhaustive = eval_rebuild(item, seed=item.get("seed", 0))
     out = []
     for o, f in results:
@@ -571,11 +587,19 @@ def eval_tree_compat(item):
 
 
 def _w_pred(item):
+    return retry_hangs(_w_pred0, item)
+
+
+def _w_pred0(item):
     fails, n = eval_predicates(item)
     return ("fill=%s %s how=%s" % ("".join(item["labels"]), "R" if item["rooted"] else "U", item["how"]), len(item["labels"]), fails, n)
 
 
 def _w_tcompat(item):
+    return retry_hangs(_w_tcompat0, item)
+
+
+def _w_tcompat0(item):
     fails, n = eval_tree_compat(item)
     return (spec_key(item["spec"]) + " updated=%d" % item["updated"], len(item["spec"]["leaves"]), fails, n)
 
@@ -589,7 +613,8 @@ def t2(ctx):
     sc = "encode@Shapes x Lab x rooting"
     ctx.scope(sc, rule="every ordered shape with <= %d leaves x {every permutation of the leaves over bits 0..n-1, every choice of n "
                        "bits among n+2 with 0/1/2 unused taxa removed and the namespace reversed/resorted} x {rooted, unrooted}, default "
-                       "options; non-trivial = >= 3 leaves" % (5 if quick else 6), exhaustive=True)
+                       "options%s; non-trivial = >= 3 leaves" % (5 if quick else 6, "" if quick else " (6 leaves: the first 120 of the 720 "
+                       "permutations)"), exhaustive=quick)
     items = _encode_items(ctx.tier)
     for item, (key, n, fails) in zip(items, pmap(_w_encode, items, chunksize=64)):
         ctx.case(sc, key, nontrivial=n >= 3)
@@ -597,9 +622,10 @@ def t2(ctx):
             rep.fail(mon, {"key": key, "kind": "encode", "item": item}, detail=detail)
 
     sc = "encode-opts@unifurcations x options"
-    ctx.scope(sc, rule="shapes with <= %d leaves with 0, 1 (every position incl. the seed) or 2 unifurcations x 7 namespace variants x "
+    ctx.scope(sc, rule="shapes with <= %d leaves with 0, 1 (every position incl. the seed) or 2 (a subset of positions) unifurcations x 7 "
+                       "namespace variants (reordered ones up to 3 leaves) x "
                        "{no lengths, dyadic lengths} x {rooted, unrooted} x all 16 combinations of the four boolean options; "
-                       "non-trivial = >= 3 leaves" % (4 if quick else 5), exhaustive=True)
+                       "non-trivial = >= 3 leaves" % (4 if quick else 5), exhaustive=False)
     items = _encode_opts_items(ctx.tier)
     for item, (key, n, fails) in zip(items, pmap(_w_encode, items, chunksize=64)):
         ctx.case(sc, key, nontrivial=n >= 3)
@@ -619,7 +645,7 @@ def t2(ctx):
 
     # ---- iff
     sc = "iff@all trees on one leaf set"
-    ctx.scope(sc, rule="for each (namespace variant, n <= %d, rooting): every ordered shape x every leaf permutation (+ one-unifurcation "
+    ctx.scope(sc, rule="for each (namespace variant [7 up to 4 leaves, the 5 unreordered ones for 5, one for 6], n <= %d, rooting): every ordered shape x every leaf permutation (+ one-unifurcation "
                        "variants for n <= 4): the map canonical form <-> split-mask set must be a bijection, i.e. the iff holds for "
                        "every pair of these trees; one evaluation per tree; non-trivial = >= 3 leaves" % (5 if quick else 6),
               exhaustive=True)
@@ -668,6 +694,36 @@ def t2(ctx):
                 rep.fail(mon, {"key": key + " order=" + ",".join(map(str, o)), "kind": "rebuild", "item": {"spec": item["spec"]}, "order": o},
                          detail=detail)
 
+    # ---- seeded random larger trees
+    sc = "random@8-10 leaves"
+    ctx.scope(sc, rule="%d seeded random trees (8-10 leaves, polytomies p=0.3, unifurcations p=0.1) over a 12-taxon namespace with 0-2 "
+                       "unused taxa removed and a random list order, random rooting and options: all encode clauses, then "
+                       "reconstruction from 60 sampled orders; one evaluation per tree and per (tree, order); all non-trivial"
+                       % (120 if quick else 1500), exhaustive=False)
+    rng = rng_for(ctx, 101)
+    items_e, items_r = [], []
+    for _ in range(120 if quick else 1500):
+        n = rng.randint(8, 10)
+        spare = rng.sample(LABELS[:12], 12 - n)
+        removed = sorted(spare[:rng.randint(0, 2)])
+        leaves = [l for l in LABELS[:12] if l not in spare]
+        rng.shuffle(leaves)
+        nsd = {"total": 12, "removed": removed, "order": rng.choice(["asis", "rev", "key"])}
+        spec = {"shape": lst(random_shape(n, rng, 0.3, 0.1)), "leaves": leaves, "rooted": rng.random() < 0.5, "lens": None, "ns": nsd}
+        items_e.append({"spec": spec, "opts": dict((k, rng.random() < 0.5) for k in OPT_NAMES)})
+        items_r.append({"spec": spec, "seed": ctx.seed})
+    for item, (key, n, fails) in zip(items_e, pmap(_w_encode, items_e, chunksize=8)):
+        ctx.case(sc, key)
+        for mon, detail in fails:
+            rep.fail(mon, {"key": key, "kind": "encode", "item": item}, detail=detail)
+    for item, (key, n, bad, n_orders, exh) in zip(items_r, pmap(_w_rebuild, items_r, chunksize=4)):
+        for i in range(n_orders):
+            ctx.case(sc, (key, i), sample=key)
+        for o, f in bad:
+            for mon, detail in f:
+                rep.fail(mon, {"key": key + " order=" + ",".join(map(str, o)), "kind": "rebuild", "item": {"spec": item["spec"]}, "order": o},
+                         detail=detail)
+
     # ---- predicates
     sc = "predicates@all subset pairs"
     ctx.scope(sc, rule="leaf sets of 1..%d taxa taken from the 7 namespace variants x {rooted, unrooted} x {built from leafset_bitmask=, "
@@ -692,7 +748,7 @@ def t2(ctx):
             rep.fail(mon, {"key": wk, "kind": "pred", "item": item, "masks": w}, detail=detail)
 
     sc = "tree_compat@trees x subsets"
-    ctx.scope(sc, rule="shapes with <= %d leaves (+ unifurcation variants for <= 4) x 4 namespace variants x {rooted, unrooted} x "
+    ctx.scope(sc, rule="shapes with <= %d leaves (+ the first 4 unifurcation variants for <= 4) x 4 namespace variants (1 for 6 leaves) x {rooted, unrooted} x "
                        "is_bipartitions_updated in {False, True after encoding} x every subset of the leaf set as a bipartition; "
                        "non-trivial = >= 4 leaves" % (5 if quick else 6), exhaustive=True)
     items = []
